@@ -4,7 +4,7 @@ meaning of +=) checked exhaustively on the spec functions.  Labelled bounded; ne
 import itertools, random
 from bounded.util import chunked, pmap
 
-ALPHA = ['-Ia', '-Dx', '-lfoo', 'x.c', '/abs/libz.a', '-Ib', '-pthread', '-L/q']
+ALPHA = ['-Ia', '-Dx', '-lfoo', 'x.c', '/abs/libz.a', '/abs/hdr.h', '-Ib', '-pthread', '-L/q']      # '/abs/hdr.h': an absolute path that is NOT a library (never de-duplicated)
 
 
 def _cls():
@@ -152,7 +152,7 @@ def run(REG, tier, seed, jobs):
                   'bound': f'{len(kc)} arguments whose kind the statement fixes (-I/-L; -D/-U/-isystem; -l, library files with and without directories and version suffixes, -pthread ...; bare prefixes and ordinary words), each added, followed by another word, and added again',
                   'evaluations': ev, 'distinct_nontrivial': nt, 'rule': 'every argument', 'exhaustive': True, 'failures': fails})
     rnd = random.Random(seed)
-    alpha = ALPHA[:5] if tier == 'quick' else ALPHA
+    alpha = ALPHA[:6] if tier == 'quick' else ALPHA
     ops = op_alphabet(alpha)
     L = 3
     hist = itertools.product(ops, repeat=L)
